@@ -261,6 +261,7 @@ func (h *geHarness) evaluate(ls []lexeme, failAt int, reparse bool) geResult {
 	}
 	sort.Strings(known)
 	before := h.snapshot(known)
+	instBefore := mFieldFingerprints(h.calc)
 	varsName, funcsName := "vars", "funcs"
 	if h.set == 2 {
 		varsName, funcsName = "vars2", "funcs2"
@@ -271,6 +272,11 @@ func (h *geHarness) evaluate(ls []lexeme, failAt int, reparse bool) geResult {
 	}
 	if after := h.snapshot(known); after != before && out.kind == "ok" {
 		return geResult{kind: "mutated", trace: h.trace, why: fmt.Sprintf("before [%s] after [%s]", before, after)}
+	}
+	if out.kind == "ok" {
+		if ch := changedFields(ev.Signature.Recv().Type(), instBefore, mFieldFingerprints(h.calc)); len(ch) > 0 {
+			return geResult{kind: "mutated", trace: h.trace, why: fmt.Sprintf("the evaluation writes the calculator instance (state reachable from its field %s differs afterwards): concurrent evaluations of one parsed instance race on it", strings.Join(ch, ", "))}
+		}
 	}
 	switch out.kind {
 	case "panic":
